@@ -4,7 +4,7 @@ CONSTANTS MaxInt = 5
  MaxDepth = 60
  WithApi = TRUE
  EmitPaths = FALSE
- WithFaults = FALSE
+ WithFaults = TRUE
 SPECIFICATION Spec
 VIEW view
 ACTION_CONSTRAINT Emit
